@@ -4,12 +4,24 @@ import DelbModel.Lemmas.Attrs
 # C11 — Attributes behave as a mapping keyed by namespace and local name
 
 Property theorems only; helper lemmas are in `DelbModel/Lemmas/Attrs.lean`.
-The mapping part (set / delete / lookup / membership / iteration / length, through any accessor form)
-is a full refinement of a dictionary keyed by canonical names.  The view part is partial: the
-unchanged code keeps only the *cached* view of a qualified name informed (`c11_stale_view_exists`
-exhibits the recorded finding), so the live-view theorems speak about cached views.
+
+* The mapping part (set / delete / update / lookup / membership / iteration / length, through any accessor form)
+  is a refinement of a dictionary keyed by canonical names.
+* The view part holds for every state that satisfies the invariant `Inv` (`storeOk` and `ViewsOk`: the cached
+  view of a store key is an attached view of that key, every attached view is the cached view of its key,
+  cached keys are stored, ids are unique, detached views have a value).  `Inv` holds initially and is
+  preserved by every operation (`c11_inv_initial`, `c11_inv_preserved`), hence in every reachable state
+  (`c11_reachable_inv`).
+* Equality of two collections is equality (same entries) of the dictionaries of reported names.
+
+All of it is under `storeOk` (no key of the wrapped mapping carries the in-scope default namespace in Clark form),
+which every operation preserves.  A parsed element can violate it from the start (`<e xmlns="urn:u" xmlns:p="urn:u"
+p:a="1"/>`); there the implementation — and the model, which agrees with it — breaks the property: recorded finding
+`prefixed-attribute-in-default-namespace`.
 -/
 namespace Delb.Attrs
+
+/-! ## the mapping -/
 
 /-- the store key of a qualified name depends only on its canonical form: the three accessor forms
     of one attribute — and `("", n)` / `(D, n)` — reach the same entry -/
@@ -26,43 +38,58 @@ theorem c11_distinct_entries (c : Ctx) (q₁ q₂ : QName) (h : etreeKey c q₁ 
 theorem c11_lookup (c : Ctx) (s : State) (a : Accessor) (hok : storeOk c s.store) :
     getValue c s a = dictGet (absStore s.store) (canon c (resolve c a)) ∧
     contains c s a = (dictGet (absStore s.store) (canon c (resolve c a))).isSome := by
-  have h := sget_eq s.store (etreeKey c (resolve c a)) (storeOk_fst_ne hok) (etreeKey_fst_ne _ _)
-  rw [unkey_etreeKey] at h
+  have h := sget_etreeKey hok (resolve c a)
   exact ⟨h, congrArg Option.isSome h⟩
 
 /-- assignment is dictionary assignment (an existing entry keeps its position) -/
 theorem c11_set (c : Ctx) (s : State) (a : Accessor) (v : Str) (hok : storeOk c s.store) :
     absStore (setItem c s a v).store = dictSet (absStore s.store) (canon c (resolve c a)) v ∧
     storeOk c (setItem c s a v).store := by
-  refine ⟨?_, storeOk_sset hok _ _⟩
+  refine ⟨?_, storeOk_setItem hok a v⟩
+  rw [setItem_store]
   have h := sset_eq s.store (etreeKey c (resolve c a)) v (storeOk_fst_ne hok) (etreeKey_fst_ne _ _)
   rw [unkey_etreeKey] at h
   exact h
 
+/-- `update` is a sequence of dictionary assignments -/
+theorem c11_update (c : Ctx) (items : List (Accessor × Str)) (s : State) (hok : storeOk c s.store) :
+    absStore (update c s items).store =
+      items.foldl (fun d e => dictSet d (canon c (resolve c e.1)) e.2) (absStore s.store) ∧
+    storeOk c (update c s items).store := by
+  induction items generalizing s with
+  | nil => exact ⟨rfl, hok⟩
+  | cons e rest ih =>
+    obtain ⟨h1, h2⟩ := c11_set c s e.1 e.2 hok
+    have := ih (setItem c s e.1 e.2) h2
+    simp only [update, List.foldl_cons] at this ⊢
+    rw [h1] at this
+    exact this
+
 /-- deletion is dictionary deletion; it raises KeyError exactly for a missing entry -/
-theorem c11_del (c : Ctx) (s : State) (a : Accessor) (hok : storeOk c s.store) :
+theorem c11_del (c : Ctx) (s : State) (a : Accessor) (hinv : Inv c s) :
     ((delItem c s a).2 = .keyError ↔ dictGet (absStore s.store) (canon c (resolve c a)) = none) ∧
     ((delItem c s a).2 ≠ .keyError →
         absStore (delItem c s a).1.store = dictDel (absStore s.store) (canon c (resolve c a)) ∧
         storeOk c (delItem c s a).1.store) := by
+  have hok := hinv.1
   have hl := (c11_lookup c s a hok).2
-  rw [delItem_snd]
-  by_cases hc : contains c s a = true
-  · rw [if_pos hc]
+  cases hc : contains c s a with
+  | false =>
     rw [hc] at hl
-    refine ⟨⟨fun h => (by cases h), fun h => (by rw [h] at hl; cases hl)⟩, fun _ => ?_⟩
-    rw [delItem_store hc]
-    refine ⟨?_, storeOk_sdel hok _⟩
-    have h := sdel_eq s.store (etreeKey c (resolve c a)) (storeOk_fst_ne hok) (etreeKey_fst_ne _ _)
-    rw [unkey_etreeKey] at h
-    exact h
-  · rw [if_neg hc]
-    have hc' : contains c s a = false := by simpa using hc
-    rw [hc'] at hl
+    rw [delItem_keyError hc]
     refine ⟨⟨fun _ => ?_, fun _ => rfl⟩, fun h => absurd rfl h⟩
     cases hd : dictGet (absStore s.store) (canon c (resolve c a)) with
     | none => rfl
     | some x => rw [hd] at hl; cases hl
+  | true =>
+    rw [hc] at hl
+    obtain ⟨s₁, vid, v, x, _, _, _, _, _, _, _, _, _, _, _, _, hd⟩ := delItem_spec hinv.2 hc
+    rw [hd]
+    refine ⟨⟨fun h => (by cases h), fun h => (by rw [h] at hl; cases hl)⟩, fun _ => ?_⟩
+    refine ⟨?_, storeOk_sdel hok _⟩
+    have h := sdel_eq s.store (etreeKey c (resolve c a)) (storeOk_fst_ne hok) (etreeKey_fst_ne _ _)
+    rw [unkey_etreeKey] at h
+    exact h
 
 /-- iteration and length are those of the dictionary (each attribute once, in store order) -/
 theorem c11_iter_len (c : Ctx) (s : State) (hok : storeOk c s.store) :
@@ -76,10 +103,10 @@ theorem c11_iter_len (c : Ctx) (s : State) (hok : storeOk c s.store) :
     intro e he
     obtain ⟨⟨o, n⟩, v⟩ := e
     cases o with
-    | none => simp [canon, unkey]
+    | none => simp [canon, unkey, iterName]
     | some ns =>
       have hne : ns ≠ c.defaultNs := (hok.1 _ he ns rfl).2
-      simp [canon, unkey, hne]
+      simp [canon, unkey, iterName, hne]
   refine ⟨h1, ?_, ?_⟩
   · simp [len, absStore]
   · rw [h1, absStore_keys]
@@ -88,105 +115,488 @@ theorem c11_iter_len (c : Ctx) (s : State) (hok : storeOk c s.store) :
     obtain ⟨e, he, rfl⟩ := List.mem_map.1 hk
     exact storeOk_fst_ne hok e he
 
--- FALSE: nothing in the hypotheses relates the cache of an arbitrary `State` to its views.
---   c := ⟨"", ""⟩,  s := { store := [((none, "a"), ['x'])], cache := [(("", "a"), 7)], views := [], nextView := 0 }
---   `getItem c s (.local_ "a") = (s, .view 7)` (the cached id is returned), but there is no view 7:
---   `viewValue c s 7 = .keyError`.  `storeOk` and `hfresh` hold.  The slip is in the statement (a state
---   invariant is missing), not in the model: every state reachable from an empty cache satisfies it.
--- theorem c11_view_live (c : Ctx) (s : State) (a : Accessor) (hok : storeOk c s.store) (s' : State) (vid : Nat)
---     (h : getItem c s a = (s', .view vid)) (hfresh : ∀ v ∈ s.views, v.id < s.nextView) :
---     (∃ x, viewValue c s' vid = .value x ∧ dictGet (absStore s'.store) (canon c (resolve c a)) = some x) ∧
---     s'.store = s.store ∧
---     ∀ y, absStore (viewSetValue c s' vid y).store = dictSet (absStore s'.store) (canon c (resolve c a)) y
+/-! ## the invariant of reachable states -/
 
-/-- a view obtained from the mapping shows the dictionary value, and writing through it writes
-    the dictionary — provided that an id cached under this qualified name is the id of an attached view
-    of this qualified name (`hcache`; true of every state reachable from an empty cache) -/
-theorem c11_view_live_partial (c : Ctx) (s : State) (a : Accessor) (hok : storeOk c s.store) (s' : State)
-    (vid : Nat) (h : getItem c s a = (s', .view vid)) (hfresh : ∀ v ∈ s.views, v.id < s.nextView)
-    (hcache : ∀ id, cacheGet s.cache (resolve c a) = some id →
-      ∃ v, getView s id = some v ∧ v.attached = true ∧ v.qname = resolve c a) :
-    (∃ x, viewValue c s' vid = .value x ∧ dictGet (absStore s'.store) (canon c (resolve c a)) = some x) ∧
-    s'.store = s.store ∧
-    ∀ y, absStore (viewSetValue c s' vid y).store = dictSet (absStore s'.store) (canon c (resolve c a)) y := by
-  obtain ⟨hst, hc, _, v, hv, hatt, hq⟩ := getItem_post h hfresh hcache
-  have hok' : storeOk c s'.store := by rw [hst]; exact hok
-  refine ⟨?_, hst, ?_⟩
-  · have hl := (c11_lookup c s' a hok').1
-    unfold contains at hc
-    unfold getValue at hl
-    cases hx : sget s'.store (etreeKey c (resolve c a)) with
-    | none => rw [hx] at hc; cases hc
-    | some x =>
-      refine ⟨x, ?_, by rw [← hl, hx]⟩
-      unfold viewValue
-      rw [hv]
-      simp only [hatt, if_true, hq, hx]
-  · intro y
-    unfold viewSetValue
-    rw [hv]
-    simp only [hatt, if_true, hq]
-    have h := sset_eq s'.store (etreeKey c (resolve c a)) y (storeOk_fst_ne hok') (etreeKey_fst_ne _ _)
+/-- a freshly wrapped element (no attribute objects yet) satisfies the invariant -/
+theorem c11_inv_initial (c : Ctx) (st : Store) (n : Nat) (hok : storeOk c st) : Inv c ⟨st, [], [], n⟩ :=
+  ⟨hok, viewsOk_empty c st n⟩
+
+/-- every operation preserves the invariant -/
+theorem c11_inv_preserved (c : Ctx) (s : State) (hinv : Inv c s) :
+    (∀ a, Inv c (getItem c s a).1) ∧ (∀ a x, Inv c (setItem c s a x)) ∧ (∀ a, Inv c (delItem c s a).1) ∧
+    (∀ vid x, Inv c (viewSetValue c s vid x)) ∧ (∀ vid nq, Inv c (renameView c s vid nq).1) ∧
+    (∀ items, Inv c (update c s items)) ∧ (∀ a, Inv c (pop c s a).1) :=
+  ⟨hinv.getItem, hinv.setItem, hinv.delItem, hinv.viewSetValue, hinv.renameView, fun items => hinv.update items,
+   hinv.pop⟩
+
+/-- … so it holds in every state a client can reach -/
+theorem c11_reachable_inv (c : Ctx) (s : State) (h : Reachable c s) : Inv c s := by
+  induction h with
+  | init st n hok => exact c11_inv_initial c st n hok
+  | getItem a _ ih => exact ih.getItem a
+  | setItem a x _ ih => exact ih.setItem a x
+  | delItem a _ ih => exact ih.delItem a
+  | viewSetValue vid x _ ih => exact ih.viewSetValue vid x
+  | renameView vid nq _ ih => exact ih.renameView vid nq
+
+/-- the attribute object a lookup returns is attached, denotes the looked-up attribute and is *the* object of
+    that attribute: every spelling of the name gives the same object; the store is untouched -/
+theorem c11_get_view (c : Ctx) (s : State) (a : Accessor) (hinv : Inv c s) (hc : contains c s a = true) :
+    ∃ s' vid v, getItem c s a = (s', .view vid) ∧ s'.store = s.store ∧
+      getView s' vid = some v ∧ v.attached = true ∧ canon c v.qname = canon c (resolve c a) ∧
+      ∀ a', canon c (resolve c a') = canon c (resolve c a) → getItem c s' a' = (s', .view vid) := by
+  obtain ⟨s', vid, v, hgi, _, hst, hg, hv, ha, hk, _⟩ := getItem_spec hinv.2 hc
+  refine ⟨s', vid, v, hgi, hst, hv, ha, c11_distinct_entries c _ _ hk, ?_⟩
+  intro a' ha'
+  have hk' := c11_same_entry c _ _ ha'
+  refine getItem_hit ?_ (by rw [hk']; exact hg)
+  unfold contains at hc ⊢
+  rw [hk', hst]; exact hc
+
+/-! ## attribute objects are live views -/
+
+/-- (a) an attached attribute object shows the dictionary value of its name; a removed one shows the value it
+    kept — reading the value never fails -/
+theorem c11_view_value (c : Ctx) (s : State) (vid : Nat) (v : View) (hinv : Inv c s)
+    (hv : getView s vid = some v) :
+    (v.attached = true → ∃ x, viewValue c s vid = .value x ∧
+        dictGet (absStore s.store) (canon c v.qname) = some x) ∧
+    (v.attached = false → ∃ x, viewValue c s vid = .value x ∧ v.detachedValue = some x) := by
+  constructor
+  · intro ha
+    obtain ⟨x, hx, hval⟩ := hinv.2.viewValue hv ha
+    exact ⟨x, hval, by rw [← sget_etreeKey hinv.1, hx]⟩
+  · intro ha
+    have := hinv.2.detached vid v hv ha
+    cases hd : v.detachedValue with
+    | none => rw [hd] at this; cases this
+    | some x => exact ⟨x, viewValue_detached hv ha hd, rfl⟩
+
+/-- (b) writing through an attached attribute object changes exactly the dictionary entry of its name, the
+    object shows the new value and no attribute object changes -/
+theorem c11_view_set (c : Ctx) (s : State) (vid : Nat) (v : View) (y : Str) (hinv : Inv c s)
+    (hv : getView s vid = some v) (ha : v.attached = true) :
+    absStore (viewSetValue c s vid y).store = dictSet (absStore s.store) (canon c v.qname) y ∧
+    viewValue c (viewSetValue c s vid y) vid = .value y ∧
+    (∀ id, getView (viewSetValue c s vid y) id = getView s id) := by
+  rw [viewSetValue_attached y hv ha]
+  refine ⟨?_, ?_, fun _ => rfl⟩
+  · have h := sset_eq s.store (etreeKey c v.qname) y (storeOk_fst_ne hinv.1) (etreeKey_fst_ne _ _)
     rw [unkey_etreeKey] at h
     exact h
+  · exact viewValue_attached (s := { s with store := sset s.store (etreeKey c v.qname) y }) hv ha
+      (sget_sset_self _ _ _)
 
--- FALSE: as above, the cached id may belong to a view of a *different* qualified name (or a detached one).
---   c := ⟨"", ""⟩,  s := { store := [((none, "a"), ['x']), ((none, "b"), ['y'])], cache := [(("", "a"), 0)],
---                          views := [{ id := 0, attached := true, qname := ("", "b"), detachedValue := none }],
---                          nextView := 1 }
---   `getItem c s (.local_ "a") = (s, .view 0)`, `viewValue c s 0 = .value ['y']`, but
---   `viewValue c (delItem c s (.local_ "a")).1 0 = .value ['x']`.  `storeOk`, `hfresh`, `hids` hold.
---   Statement slip (missing state invariant), not a model slip.
--- theorem c11_view_keeps_value (c : Ctx) (s : State) (a : Accessor) (hok : storeOk c s.store) (s₁ : State)
---     (vid : Nat) (x : Str) (h : getItem c s a = (s₁, .view vid)) (hv : viewValue c s₁ vid = .value x)
---     (hfresh : ∀ v ∈ s.views, v.id < s.nextView) (hids : (s.views.map (·.id)).Nodup) :
---     viewValue c (delItem c s₁ a).1 vid = .value x
+/-- writing through a removed attribute object changes only what that object shows -/
+theorem c11_view_set_removed (c : Ctx) (s : State) (vid : Nat) (v : View) (y : Str)
+    (hv : getView s vid = some v) (ha : v.attached = false) :
+    (viewSetValue c s vid y).store = s.store ∧ viewValue c (viewSetValue c s vid y) vid = .value y := by
+  rw [viewSetValue_detached y hv ha]
+  refine ⟨rfl, ?_⟩
+  have hvid : v.id = vid := getView_id hv
+  subst hvid
+  exact viewValue_detached (getView_putView_self s { v with detachedValue := some y } hv) ha rfl
 
-/-- an attribute object keeps its last value once removed — when it is removed through the
-    qualified name it is cached under; needs the same cache invariant `hcache` as `c11_view_live_partial`
-    (`storeOk` and uniqueness of view ids turn out not to be needed) -/
-theorem c11_view_keeps_value_partial (c : Ctx) (s : State) (a : Accessor) (s₁ : State)
-    (vid : Nat) (x : Str) (h : getItem c s a = (s₁, .view vid)) (hv : viewValue c s₁ vid = .value x)
-    (hfresh : ∀ v ∈ s.views, v.id < s.nextView)
-    (hcache : ∀ id, cacheGet s.cache (resolve c a) = some id →
-      ∃ v, getView s id = some v ∧ v.attached = true ∧ v.qname = resolve c a) :
-    viewValue c (delItem c s₁ a).1 vid = .value x := by
-  obtain ⟨_, hc, hg, v, hgv, hatt, hq⟩ := getItem_post h hfresh hcache
-  have hx : sget s₁.store (etreeKey c (resolve c a)) = some x := by
-    unfold viewValue at hv
-    rw [hgv] at hv
-    simp only [hatt, if_true, hq] at hv
-    cases hx : sget s₁.store (etreeKey c (resolve c a)) with
-    | none => rw [hx] at hv; cases hv
-    | some y => rw [hx] at hv; cases hv; rfl
-  rw [delItem_cached hc hg hgv, hx]
-  have hid : v.id = vid := getView_id hgv
-  have hgv' : getView (putView s₁ { v with attached := false, detachedValue := some x }) vid =
-      some { v with attached := false, detachedValue := some x } := by
-    rw [getView_putView, hgv]
-    simp
-  unfold viewValue
-  show (match getView (putView s₁ { v with attached := false, detachedValue := some x }) vid with
-    | Option.none => Res.keyError
-    | some v => _) = _
-  rw [hgv']
-  rfl
+/-- (c) after a removal through ANY accessor that denotes the attribute, the attribute object of that attribute
+    is detached and keeps the value it showed before; every other attribute object shows what it showed and
+    stays as attached as it was -/
+theorem c11_del_detaches (c : Ctx) (s : State) (a : Accessor) (vid : Nat) (v : View) (x : Str) (hinv : Inv c s)
+    (hv : getView s vid = some v) (ha : v.attached = true) (hx : viewValue c s vid = .value x)
+    (hsame : canon c v.qname = canon c (resolve c a)) :
+    (delItem c s a).2 = .unit ∧
+    (∃ v', getView (delItem c s a).1 vid = some v' ∧ v'.attached = false) ∧
+    viewValue c (delItem c s a).1 vid = .value x ∧
+    (∀ wid w, getView s wid = some w → wid ≠ vid →
+      viewValue c (delItem c s a).1 wid = viewValue c s wid ∧
+      ∃ w', getView (delItem c s a).1 wid = some w' ∧ w'.attached = w.attached) := by
+  have hk : etreeKey c v.qname = etreeKey c (resolve c a) := c11_same_entry c _ _ hsame
+  have hg : cacheGet s.cache (etreeKey c (resolve c a)) = some vid := by
+    rw [← hk]; exact hinv.2.attached vid v hv ha
+  have hc : contains c s a = true := hinv.2.stored _ _ hg
+  rw [delItem_eq hc hg hv hx]
+  have hvid : v.id = vid := getView_id hv
+  subst hvid
+  have hself : getView (putView s { v with attached := false, detachedValue := some x }) v.id =
+      some { v with attached := false, detachedValue := some x } := getView_putView_self s _ hv
+  refine ⟨rfl, ⟨_, hself, rfl⟩, viewValue_detached hself rfl rfl, ?_⟩
+  intro wid w hw hne
+  have hw' : getView (putView s { v with attached := false, detachedValue := some x }) wid = some w := by
+    rw [getView_putView_ne s { v with attached := false, detachedValue := some x } hne]; exact hw
+  refine ⟨?_, w, hw', rfl⟩
+  cases hwa : w.attached with
+  | false =>
+    simp only [viewValue, getView] at hw' ⊢
+    simp only [getView] at hw
+    rw [hw', hw]
+    simp only [hwa]
+    rfl
+  | true =>
+    have hne_key : etreeKey c w.qname ≠ etreeKey c (resolve c a) := by
+      intro e
+      have := hinv.2.attached wid w hw hwa
+      rw [e, hg] at this
+      cases this
+      exact hne rfl
+    simp only [viewValue, getView] at hw' ⊢
+    simp only [getView] at hw
+    rw [hw', hw]
+    simp only [hwa, if_true]
+    rw [sget_sdel, if_neg hne_key]
 
-/-- the recorded finding: an earlier view that is no longer the cached one is not told about the
-    removal (`A['a']`, `A['a'] = 'x'`, `del A['a']`, then `.value` raises KeyError) -/
-theorem c11_stale_view_exists :
-    ∃ (c : Ctx) (s₀ : State) (vid : Nat),
-      let s₁ := (getItem c s₀ (.local_ "a")).1
-      let s₂ := setItem c s₁ (.local_ "a") "x".toList
-      let s₃ := (delItem c s₂ (.local_ "a")).1
-      (getItem c s₀ (.local_ "a")).2 = .view vid ∧ viewValue c s₃ vid = .keyError := by
-  refine ⟨⟨"", ""⟩, ⟨[((none, "a"), [])], [], [], 0⟩, 0, ?_⟩
+/-- (d) assigning to an existing attribute — through any accessor that denotes it — keeps its attribute object:
+    the object stays attached, shows the assigned value, and a lookup afterwards returns this object -/
+theorem c11_set_keeps_view (c : Ctx) (s : State) (a a' : Accessor) (vid : Nat) (v : View) (y : Str) (hinv : Inv c s)
+    (hv : getView s vid = some v) (ha : v.attached = true)
+    (hsame : canon c (resolve c a) = canon c v.qname) (hsame' : canon c (resolve c a') = canon c v.qname) :
+    getView (setItem c s a y) vid = some v ∧ viewValue c (setItem c s a y) vid = .value y ∧
+    getItem c (setItem c s a y) a' = (setItem c s a y, .view vid) := by
+  have hk : etreeKey c (resolve c a) = etreeKey c v.qname := c11_same_entry c _ _ hsame
+  have hk' : etreeKey c (resolve c a') = etreeKey c v.qname := c11_same_entry c _ _ hsame'
+  have hg : cacheGet s.cache (etreeKey c (resolve c a)) = some vid := by
+    rw [hk]; exact hinv.2.attached vid v hv ha
+  rw [setItem_hit y hg]
+  refine ⟨hv, ?_, ?_⟩
+  · exact viewValue_attached (s := { s with store := sset s.store (etreeKey c (resolve c a)) y }) hv ha
+      (by rw [hk]; exact sget_sset_self _ _ _)
+  · refine getItem_hit ?_ (by rw [hk', ← hk]; exact hg)
+    show (sget (sset s.store (etreeKey c (resolve c a)) y) (etreeKey c (resolve c a'))).isSome = true
+    rw [hk', ← hk, sget_sset_self]; rfl
+
+/-- (e) renaming through an attached attribute object moves the dictionary entry (the old canonical name is
+    deleted, the new one gets the value; another spelling of the same name changes nothing); the object stays
+    attached, carries the new name and shows the value -/
+theorem c11_rename (c : Ctx) (s : State) (vid : Nat) (v : View) (nq : QName) (x : Str) (hinv : Inv c s)
+    (hv : getView s vid = some v) (ha : v.attached = true) (hx : viewValue c s vid = .value x) :
+    (renameView c s vid nq).2 = .unit ∧
+    absStore (renameView c s vid nq).1.store =
+      (if canon c nq = canon c v.qname then absStore s.store
+       else dictSet (dictDel (absStore s.store) (canon c v.qname)) (canon c nq) x) ∧
+    (∃ v', getView (renameView c s vid nq).1 vid = some v' ∧ v'.attached = true ∧
+      canon c v'.qname = canon c nq) ∧
+    viewValue c (renameView c s vid nq).1 vid = .value x := by
+  by_cases hk : etreeKey c nq = etreeKey c v.qname
+  · have hcan : canon c nq = canon c v.qname := c11_distinct_entries c _ _ hk
+    rw [renameView_alias hv ha hk, if_pos hcan]
+    exact ⟨rfl, rfl, ⟨v, hv, ha, hcan.symm⟩, hx⟩
+  · have hcan : ¬ canon c nq = canon c v.qname := fun e => hk (c11_same_entry c _ _ e)
+    obtain ⟨s', x', hr, hx', hst, _, hgv, _⟩ := renameView_spec hinv.2 hv ha hk
+    have hxx : x' = x := by
+      rw [viewValue_attached hv ha hx'] at hx
+      cases hx; rfl
+    subst hxx
+    rw [hr, if_neg hcan]
+    have hself : getView s' vid = some { v with qname := nq, detachedValue := some x' } := by
+      rw [hgv vid, if_pos rfl]
+    refine ⟨rfl, ?_, ⟨_, hself, ha, rfl⟩, ?_⟩
+    · show absStore s'.store = _
+      rw [hst]
+      have hok1 := storeOk_sset hinv.1 nq x'
+      have h1 := sdel_eq (sset s.store (etreeKey c nq) x') (etreeKey c v.qname) (storeOk_fst_ne hok1)
+        (etreeKey_fst_ne _ _)
+      have h2 := sset_eq s.store (etreeKey c nq) x' (storeOk_fst_ne hinv.1) (etreeKey_fst_ne _ _)
+      rw [unkey_etreeKey] at h1 h2
+      rw [h1, h2]
+      exact dictDel_dictSet_comm _ _ hcan
+    · refine viewValue_attached hself ha ?_
+      show sget s'.store (etreeKey c nq) = some x'
+      rw [hst, sget_sdel, if_neg hk, sget_sset_self]
+
+/-- a rename supersedes an attribute that has the new name: its attribute object is detached and keeps the value
+    it showed; all other attribute objects show what they showed and stay as attached as they were -/
+theorem c11_rename_others (c : Ctx) (s : State) (vid : Nat) (v : View) (nq : QName) (hinv : Inv c s)
+    (hv : getView s vid = some v) (ha : v.attached = true) (wid : Nat) (w : View) (hw : getView s wid = some w)
+    (hne : wid ≠ vid) :
+    viewValue c (renameView c s vid nq).1 wid = viewValue c s wid ∧
+    ∃ w', getView (renameView c s vid nq).1 wid = some w' ∧
+      w'.attached = (w.attached && !(canon c w.qname == canon c nq && canon c nq != canon c v.qname)) := by
+  by_cases hk : etreeKey c nq = etreeKey c v.qname
+  · have hcan : canon c nq = canon c v.qname := c11_distinct_entries c _ _ hk
+    rw [renameView_alias hv ha hk]
+    exact ⟨rfl, w, hw, by simp [hcan]⟩
+  · have hcan : ¬ canon c nq = canon c v.qname := fun e => hk (c11_same_entry c _ _ e)
+    obtain ⟨s', x, hr, hx, hst, _, hgv, _⟩ := renameView_spec hinv.2 hv ha hk
+    rw [hr]
+    show viewValue c s' wid = _ ∧ ∃ w', getView s' wid = some w' ∧ _
+    have hcv := hinv.2.attached vid v hv ha
+    have hgw := hgv wid
+    rw [if_neg hne] at hgw
+    cases hwa : w.attached with
+    | false =>
+      -- a removed object: it is not the cached object of any key
+      have hsame : getView s' wid = some w := by
+        rw [hgw]
+        cases hg : cacheGet s.cache (etreeKey c nq) with
+        | none => exact hw
+        | some rid =>
+          have hrw : wid ≠ rid := by
+            intro e
+            obtain ⟨r, hr', hra, _⟩ := hinv.2.cached _ _ hg
+            rw [← e, hw] at hr'
+            cases hr'
+            rw [hwa] at hra; cases hra
+          simp only [hrw, if_false]; exact hw
+      refine ⟨?_, w, hsame, by simp [hwa]⟩
+      simp only [viewValue, hsame, hw, hwa]
+      rfl
+    | true =>
+      have hcw := hinv.2.attached wid w hw hwa
+      have hkw_old : etreeKey c w.qname ≠ etreeKey c v.qname := by
+        intro e
+        rw [e, hcv] at hcw
+        cases hcw
+        exact hne rfl
+      obtain ⟨y, hy, hvaly⟩ := hinv.2.viewValue hw hwa
+      by_cases hkw : etreeKey c w.qname = etreeKey c nq
+      · -- the superseded attribute
+        have hg : cacheGet s.cache (etreeKey c nq) = some wid := by rw [← hkw]; exact hcw
+        have hcanw : canon c w.qname = canon c nq := c11_distinct_entries c _ _ hkw
+        rw [hg] at hgw
+        simp only [if_true, hw, Option.map_some] at hgw
+        rw [← hkw, hy] at hgw
+        refine ⟨?_, _, hgw, by simp [hcanw, hcan]⟩
+        rw [hvaly]
+        exact viewValue_detached hgw rfl rfl
+      · have hcanw : ¬ canon c w.qname = canon c nq := fun e => hkw (c11_same_entry c _ _ e)
+        have hsame : getView s' wid = some w := by
+          rw [hgw]
+          cases hg : cacheGet s.cache (etreeKey c nq) with
+          | none => exact hw
+          | some rid =>
+            have hrw : wid ≠ rid := by
+              intro e
+              obtain ⟨r, hr', _, hrk⟩ := hinv.2.cached _ _ hg
+              rw [← e, hw] at hr'
+              cases hr'
+              exact hkw hrk
+            simp only [hrw, if_false]; exact hw
+        refine ⟨?_, w, hsame, by simp [hwa, hcanw]⟩
+        rw [hvaly]
+        refine viewValue_attached hsame hwa ?_
+        rw [hst, sget_sdel, if_neg hkw_old, sget_sset_ne _ _ hkw]
+        exact hy
+
+/-! ## equality -/
+
+/-- equality of two attribute collections (elements with possibly different namespaces in scope) is equality of
+    their dictionaries of reported names: the same (name, value) entries -/
+theorem c11_eq_collections_iff (c₁ c₂ : Ctx) (s₁ s₂ : State) (h₁ : storeOk c₁ s₁.store) (h₂ : storeOk c₂ s₂.store) :
+    eqCollections c₁ s₁ c₂ s₂ = true ↔ dictEquiv (reportedDict c₁ s₁.store) (reportedDict c₂ s₂.store) := by
+  have hlen₁ : len s₁ = ((reportedDict c₁ s₁.store).map (·.1)).length := by simp [len, reportedDict]
+  have hlen₂ : len s₂ = ((reportedDict c₂ s₂.store).map (·.1)).length := by simp [len, reportedDict]
+  have hn₁ := reportedDict_keys_nodup h₁
+  have hn₂ := reportedDict_keys_nodup h₂
+  -- the loop of `__eq__` says: every entry of the first dictionary is an entry of the second
+  have hall : ((iter c₁ s₁).all (fun key =>
+      (iter c₂ s₂).contains key &&
+      sameValue (getValue c₁ s₁ (.pair key.1 key.2)) (getValue c₂ s₂ (.pair key.1 key.2)))) = true ↔
+      ∀ e, e ∈ reportedDict c₁ s₁.store → e ∈ reportedDict c₂ s₂.store := by
+    rw [List.all_eq_true]
+    constructor
+    · intro h e he
+      obtain ⟨q, v⟩ := e
+      obtain ⟨hq, hv⟩ := (mem_reportedDict_iff h₁ q v).1 he
+      have := h q (by rw [iter_eq]; exact hq)
+      simp only [Bool.and_eq_true, List.contains_iff_mem, getValue, resolve] at this
+      obtain ⟨hq₂, hm⟩ := this
+      rw [hv] at hm
+      refine (mem_reportedDict_iff h₂ q v).2 ⟨by rw [← iter_eq]; exact hq₂, ?_⟩
+      cases hv₂ : sget s₂.store (etreeKey c₂ (q.1, q.2)) with
+      | none => rw [hv₂] at hm; simp [sameValue] at hm
+      | some y =>
+        rw [hv₂] at hm
+        simp only [sameValue, beq_iff_eq] at hm
+        rw [hm]
+    · intro h q hq
+      rw [iter_eq] at hq
+      obtain ⟨⟨q', v⟩, he, rfl⟩ := List.mem_map.1 hq
+      obtain ⟨_, hv⟩ := (mem_reportedDict_iff h₁ q' v).1 he
+      obtain ⟨hq₂, hv₂⟩ := (mem_reportedDict_iff h₂ q' v).1 (h _ he)
+      simp only [Bool.and_eq_true, List.contains_iff_mem, getValue, resolve]
+      refine ⟨by rw [iter_eq]; exact hq₂, ?_⟩
+      show sameValue (sget s₁.store (etreeKey c₁ q')) (sget s₂.store (etreeKey c₂ q')) = true
+      rw [hv, hv₂]
+      simp [sameValue]
+  unfold eqCollections
+  rw [Bool.and_eq_true, hall, beq_iff_eq]
+  constructor
+  · rintro ⟨hlen, hsub⟩ e
+    refine ⟨hsub e, fun he => ?_⟩
+    obtain ⟨q, v⟩ := e
+    -- pigeonhole on the names
+    have hkeys : (reportedDict c₁ s₁.store).map (·.1) ⊆ (reportedDict c₂ s₂.store).map (·.1) := by
+      intro k hk
+      obtain ⟨e', he', rfl⟩ := List.mem_map.1 hk
+      exact List.mem_map.2 ⟨e', hsub e' he', rfl⟩
+    have hback := subset_of_nodup_of_length_le hn₁ hkeys (by rw [← hlen₁, ← hlen₂, hlen]; exact Nat.le_refl _)
+    have hq₁ := hback (List.mem_map.2 ⟨(q, v), he, rfl⟩)
+    obtain ⟨⟨q', v'⟩, he', rfl⟩ := List.mem_map.1 hq₁
+    have h2' := (mem_reportedDict_iff h₂ q' v').1 (hsub _ he')
+    have h2 := (mem_reportedDict_iff h₂ q' v).1 he
+    rw [h2.2] at h2'
+    cases h2'.2
+    exact he'
+  · intro h
+    refine ⟨?_, fun e => (h e).1⟩
+    have hk₁ : (reportedDict c₁ s₁.store).map (·.1) ⊆ (reportedDict c₂ s₂.store).map (·.1) := by
+      intro k hk
+      obtain ⟨e', he', rfl⟩ := List.mem_map.1 hk
+      exact List.mem_map.2 ⟨e', (h e').1 he', rfl⟩
+    have hk₂ : (reportedDict c₂ s₂.store).map (·.1) ⊆ (reportedDict c₁ s₁.store).map (·.1) := by
+      intro k hk
+      obtain ⟨e', he', rfl⟩ := List.mem_map.1 hk
+      exact List.mem_map.2 ⟨e', (h e').2 he', rfl⟩
+    rw [hlen₁, hlen₂]
+    exact Nat.le_antisymm (List.Nodup.length_le_of_subset hn₁ hk₁) (List.Nodup.length_le_of_subset hn₂ hk₂)
+
+/-- comparison with a plain mapping: same length, and every key of the mapping — whatever accessor form it has —
+    is an attribute of the dictionary with that value -/
+theorem c11_eq_mapping_iff (c : Ctx) (s : State) (other : List (Accessor × Str)) (hok : storeOk c s.store) :
+    eqMapping c s other = true ↔
+      (absStore s.store).length = other.length ∧
+      ∀ e ∈ other, dictGet (absStore s.store) (canon c (resolve c e.1)) = some e.2 := by
+  unfold eqMapping
+  rw [Bool.and_eq_true, beq_iff_eq, List.all_eq_true, (c11_iter_len c s hok).2.1]
+  refine and_congr Iff.rfl (forall_congr' fun e => forall_congr' fun _ => ?_)
+  obtain ⟨hl, hcn⟩ := c11_lookup c s e.1 hok
+  rw [Bool.and_eq_true, hl, hcn, beq_iff_eq]
+  constructor
+  · exact fun h => h.2
+  · intro h; rw [h]; exact ⟨rfl, rfl⟩
+
+/-- … hence, when the keys of the mapping denote pairwise different attributes, `==` is equality of the
+    dictionaries: the canonical dictionary has exactly the entries of the mapping -/
+theorem c11_eq_mapping_dict (c : Ctx) (s : State) (other : List (Accessor × Str)) (hok : storeOk c s.store)
+    (hdistinct : (other.map (fun e => canon c (resolve c e.1))).Nodup) :
+    eqMapping c s other = true ↔
+      dictEquiv (absStore s.store) (other.map (fun e => (canon c (resolve c e.1), e.2))) := by
+  have hkn : ((absStore s.store).map (·.1)).Nodup := by
+    rw [← (c11_iter_len c s hok).1]; exact (c11_iter_len c s hok).2.2
+  -- lookup in the canonical dictionary is membership
+  have hget : ∀ q v, dictGet (absStore s.store) q = some v ↔ (q, v) ∈ absStore s.store := by
+    intro q v
+    generalize absStore s.store = d at hkn
+    induction d with
+    | nil => simp [dictGet]
+    | cons e rest ih =>
+      obtain ⟨q', v'⟩ := e
+      simp only [List.map_cons, List.nodup_cons] at hkn
+      by_cases hq : q' = q
+      · subst hq
+        have : ∀ w, (q', w) ∉ rest := fun w hw => hkn.1 (List.mem_map.2 ⟨(q', w), hw, rfl⟩)
+        simp [dictGet, this]
+        exact eq_comm
+      · simp [dictGet, hq, ih hkn.2]
+        intro h; exact absurd h.symm hq
+  have hmapkeys : (other.map (fun e => (canon c (resolve c e.1), e.2))).map (·.1) =
+      other.map (fun e => canon c (resolve c e.1)) := by
+    rw [List.map_map]; rfl
+  rw [c11_eq_mapping_iff c s other hok]
+  constructor
+  · rintro ⟨hlen, hall⟩ e
+    obtain ⟨q, v⟩ := e
+    constructor
+    · intro he
+      -- pigeonhole: the names of the mapping are all names of the dictionary
+      have hsub : other.map (fun e => canon c (resolve c e.1)) ⊆ (absStore s.store).map (·.1) := by
+        intro k hk
+        obtain ⟨e', he', rfl⟩ := List.mem_map.1 hk
+        exact List.mem_map.2 ⟨_, (hget _ _).1 (hall e' he'), rfl⟩
+      have hback := subset_of_nodup_of_length_le hdistinct hsub (by simp [hlen])
+      obtain ⟨e', he', hq⟩ := List.mem_map.1 (hback (List.mem_map.2 ⟨(q, v), he, rfl⟩))
+      have := (hget _ _).1 (hall e' he')
+      rw [hq] at this
+      have hv : e'.2 = v := by
+        have h1 := (hget _ _).2 this
+        have h2 := (hget _ _).2 he
+        rw [h1] at h2; cases h2; rfl
+      exact List.mem_map.2 ⟨e', he', by rw [hq, hv]⟩
+    · intro he
+      obtain ⟨e', he', heq⟩ := List.mem_map.1 he
+      cases heq
+      exact (hget _ _).1 (hall e' he')
+  · intro h
+    refine ⟨?_, fun e he => (hget _ _).2 ((h _).2 (List.mem_map.2 ⟨e, he, rfl⟩))⟩
+    have hk₁ : (absStore s.store).map (·.1) ⊆ other.map (fun e => canon c (resolve c e.1)) := by
+      intro k hk
+      obtain ⟨e', he', rfl⟩ := List.mem_map.1 hk
+      rw [← hmapkeys]
+      exact List.mem_map.2 ⟨e', (h e').1 he', rfl⟩
+    have hk₂ : other.map (fun e => canon c (resolve c e.1)) ⊆ (absStore s.store).map (·.1) := by
+      intro k hk
+      obtain ⟨e', he', rfl⟩ := List.mem_map.1 hk
+      exact List.mem_map.2 ⟨_, (h _).2 (List.mem_map.2 ⟨e', he', rfl⟩), rfl⟩
+    have := Nat.le_antisymm (List.Nodup.length_le_of_subset hkn hk₁) (List.Nodup.length_le_of_subset hdistinct hk₂)
+    simpa using this
+
+/-! ## non-vacuity: the hypotheses of the theorems above are satisfiable
+
+An element `<e xmlns="urn:u" xmlns:q="urn:q" a="1" q:b="2"/>`: the default namespace is the element's
+(`exCtx`, `exStore`, `exInit`; `exHeld`: after `A["a"]` and `A["{urn:q}b"]`; `exRemoved`: after `del A[("", "a")]`;
+defined with `exStore_ok` and `ex_reachable` at the end of `Lemmas/Attrs.lean`). -/
+
+/-- `storeOk` (hypothesis of c11_lookup, c11_set, c11_update, c11_iter_len, c11_eq_mapping_iff) and reachable
+    states, hence `Inv` (hypothesis of c11_del, c11_get_view and of the view theorems) -/
+example : storeOk exCtx exStore ∧ Reachable exCtx exInit ∧ Reachable exCtx exHeld ∧ Reachable exCtx exRemoved :=
+  ⟨exStore_ok, ex_reachable⟩
+
+
+/-- the three accessor forms and both pairs reach one entry (c11_same_entry), another namespace another one -/
+example : etreeKey exCtx (resolve exCtx (.local_ "a")) = (none, "a") ∧
+    etreeKey exCtx (resolve exCtx (.clark "urn:u" "a")) = (none, "a") ∧
+    etreeKey exCtx (resolve exCtx (.pair "" "a")) = (none, "a") ∧
+    etreeKey exCtx (resolve exCtx (.pair "urn:q" "a")) = (some "urn:q", "a") ∧
+    canon exCtx (resolve exCtx (.local_ "a")) = canon exCtx (resolve exCtx (.pair "" "a")) := by
   decide
 
-/-- non-vacuity: on a default-namespace element the local name, the Clark name and both pairs agree -/
-example : let c : Ctx := { nodeNs := "urn:u", defaultNs := "urn:u" }
-    etreeKey c (resolve c (.local_ "a")) = (none, "a") ∧ etreeKey c (resolve c (.clark "urn:u" "a")) = (none, "a") ∧
-    etreeKey c (resolve c (.pair "" "a")) = (none, "a") ∧ etreeKey c (resolve c (.pair "urn:q" "a")) = (some "urn:q", "a") := by
+/-- an attached attribute object whose name has another spelling, with its value (hypotheses of c11_view_value,
+    c11_view_set, c11_del_detaches with the alias `("", "a")`, c11_set_keeps_view, c11_rename), a second
+    attached object (c11_rename_others), a name to rename to that supersedes it -/
+example : Inv exCtx exHeld ∧ contains exCtx exHeld (.pair "" "a") = true ∧
+    getView exHeld 0 = some ⟨0, true, ("urn:u", "a"), none⟩ ∧ viewValue exCtx exHeld 0 = .value ['1'] ∧
+    canon exCtx ("urn:u", "a") = canon exCtx (resolve exCtx (.pair "" "a")) ∧
+    getView exHeld 1 = some ⟨1, true, ("urn:q", "b"), none⟩ ∧ (1 : Nat) ≠ 0 ∧
+    canon exCtx ("urn:q", "b") ≠ canon exCtx ("urn:u", "a") :=
+  ⟨c11_reachable_inv _ _ ex_reachable.2.1, by decide, rfl, by decide, by decide, rfl, by decide, by decide⟩
+
+/-- what the theorems say there: the removal through the other spelling detaches object 0 with its value, and
+    renaming object 0 to `{urn:q}b` supersedes object 1, which keeps its value -/
+example : viewValue exCtx exRemoved 0 = .value ['1'] ∧ (delItem exCtx exHeld (.pair "" "a")).2 = .unit ∧
+    absStore exRemoved.store = [(("urn:q", "b"), ['2'])] ∧
+    (renameView exCtx exHeld 0 ("urn:q", "b")).2 = .unit ∧
+    absStore (renameView exCtx exHeld 0 ("urn:q", "b")).1.store = [(("urn:q", "b"), ['1'])] ∧
+    viewValue exCtx (renameView exCtx exHeld 0 ("urn:q", "b")).1 0 = .value ['1'] ∧
+    viewValue exCtx (renameView exCtx exHeld 0 ("urn:q", "b")).1 1 = .value ['2'] ∧
+    (getItem exCtx (renameView exCtx exHeld 0 ("urn:q", "b")).1 (.clark "urn:q" "b")).2 = .view 0 := by
+  decide
+
+/-- a removed attribute object (hypotheses of c11_view_set_removed and of the second part of c11_view_value) -/
+example : Inv exCtx exRemoved ∧ getView exRemoved 0 = some ⟨0, false, ("urn:u", "a"), some ['1']⟩ :=
+  ⟨c11_reachable_inv _ _ ex_reachable.2.2, rfl⟩
+
+/-- two elements with different namespaces in scope whose collections are equal (c11_eq_collections_iff): an
+    attribute `{urn:u}a` of an element without default namespace, and `a` under the default namespace `urn:u`;
+    and two that differ although their canonical dictionaries are the same list -/
+example : storeOk ⟨"", ""⟩ [((some "urn:u", "a"), ['1'])] ∧ storeOk exCtx [((none, "a"), ['1'])] ∧
+    eqCollections ⟨"", ""⟩ ⟨[((some "urn:u", "a"), ['1'])], [], [], 0⟩ exCtx ⟨[((none, "a"), ['1'])], [], [], 0⟩ = true ∧
+    eqCollections ⟨"", ""⟩ ⟨[((none, "a"), ['1'])], [], [], 0⟩ exCtx ⟨[((none, "a"), ['1'])], [], [], 0⟩ = false := by
+  refine ⟨⟨?_, by decide⟩, ⟨?_, by decide⟩, by decide, by decide⟩
+  · intro e he ns hns
+    simp only [List.mem_cons, List.not_mem_nil, or_false] at he
+    subst he
+    cases hns
+    exact ⟨by decide, by decide⟩
+  · intro e he ns hns
+    simp only [List.mem_cons, List.not_mem_nil, or_false] at he
+    subst he
+    cases hns
+
+/-- a plain mapping whose keys denote different attributes (hypothesis of c11_eq_mapping_dict) that compares equal,
+    in three accessor forms -/
+example : ([(Accessor.pair "" "a", ['1']), (Accessor.clark "urn:q" "b", ['2'])].map
+      (fun e => canon exCtx (resolve exCtx e.1))).Nodup ∧
+    eqMapping exCtx exInit [(.pair "" "a", ['1']), (.clark "urn:q" "b", ['2'])] = true ∧
+    eqMapping exCtx exInit [(.local_ "a", ['1']), (.pair "urn:q" "b", ['2'])] = true ∧
+    eqMapping exCtx exInit [(.local_ "a", ['1']), (.pair "urn:q" "b", ['3'])] = false := by
   decide
 
 end Delb.Attrs
